@@ -110,7 +110,7 @@ def new_run_for(prop, rng, tier):
             'remove_ep': rng.choice([0, 1, 2]),
             'restart': 0, 'foreign': 0, 'set_extras': rng.choice([0, 0, 1]),
             'set_assoc_extras': 0, 'legacy': 0, 'neo_ingest': 0, 'neo_import': 0,
-            'neo_ingest_graph': 0,
+            'neo_ingest_graph': 0, 'add_again': rng.choice([0, 1]),
         },
     }
     cfg['max_assets'] = 8
@@ -647,6 +647,19 @@ class ModelWorld(BaseWorld):
                 'id': aid, 'allow_dup': allow, 'defenses': defs,
                 'ctor': rng.random() < 0.5, 'extras': extras}
 
+    def gen_add_again(self, rng, mi, ref):
+        """An object that is already part of the model is handed to add_asset /
+        add_attacker a second time."""
+        if rng.random() > self.cfg['p_invalid'] or self.guard('add_same_object_twice'):
+            return None
+        if ref.attacker_order and rng.random() < 0.3:
+            return {'op': 'add_again', 'kind': 'attacker', 'h': rng.choice(ref.attacker_order),
+                    'id': rng.choice([None, 77])}
+        if not ref.order:
+            return None
+        return {'op': 'add_again', 'kind': 'asset', 'h': rng.choice(ref.order),
+                'id': rng.choice([None, None, 55, 0])}
+
     def gen_set_defense(self, rng, mi, ref):
         cands = [h for h in ref.order if ref.assets[h].defenses]
         if not cands:
@@ -1048,6 +1061,29 @@ class ModelWorld(BaseWorld):
         self.state_changes += 1
         self.check_model(mi, where=where)
         return 'ok'
+
+    def do_add_again(self, op, mi, model, ref):
+        h = op['h']
+        obj = self.resolve(h)
+        if op['kind'] == 'asset':
+            ra = ref.assets.get(h)
+            if ra is None or not ra.live or self.owner.get(h) != mi:
+                raise Unresolvable()
+            kw = {} if op.get('id') is None else {'asset_id': op['id']}
+            o = call(model.add_asset, obj, **kw)
+            where = f'add_asset of {ra.name!r}, which is already part of the model (id={op.get("id")})'
+        else:
+            rk = ref.attackers.get(h)
+            if rk is None or not rk.live or self.owner.get(h) != mi:
+                raise Unresolvable()
+            kw = {} if op.get('id') is None else {'attacker_id': op['id']}
+            o = call(model.add_attacker, obj, **kw)
+            where = f'add_attacker of {rk.name!r}, which is already part of the model'
+        self.count('fault:rejected_add_same_object_twice')
+        if not o.raised:
+            self.fail('C05.unique', f'{where} was accepted: the object is now listed twice')
+        self.check_model(mi, raised=True, where=where)
+        return 'rejected'
 
     def do_set_defense(self, op, mi, model, ref):
         h = op['h']
